@@ -81,6 +81,11 @@ pub enum Framing {
     /// `Transfer-Encoding: chunked` with these chunk sizes (the tail goes into one last chunk);
     /// `cl` is ignored by hyper in that case but still sent when not `Absent`.
     Chunked(Vec<usize>),
+    /// HTTP/2 with prior knowledge: HEADERS (with the `content-length` of `cl`, if any) followed by
+    /// DATA frames of these sizes (the tail goes into one last frame, END_STREAM on the last one).
+    /// The body is what the DATA frames carry; a `content-length` that disagrees makes the message
+    /// malformed (RFC 9113 §8.1.1). Bodies stay below the default 65 535-byte flow-control window.
+    H2(Vec<usize>),
 }
 
 #[derive(Serialize, Deserialize, Clone, Debug)]
@@ -692,6 +697,66 @@ fn wire_message(script: &Script, data: &[u8]) -> (Vec<u8>, Vec<u8>, bool) {
             m.extend_from_slice(data);
             (m, announced, valid)
         }
+        Framing::H2(sizes) => {
+            fn frame(ty: u8, flags: u8, stream: u32, payload: &[u8]) -> Vec<u8> {
+                let n = payload.len() as u32;
+                let mut f = vec![(n >> 16) as u8, (n >> 8) as u8, n as u8, ty, flags];
+                f.extend_from_slice(&stream.to_be_bytes());
+                f.extend_from_slice(payload);
+                f
+            }
+            // literal header field without indexing, name taken from the static table
+            fn lit(block: &mut Vec<u8>, name_index: u8, value: &[u8]) {
+                if name_index < 15 {
+                    block.push(name_index);
+                } else {
+                    block.extend_from_slice(&[0x0f, name_index - 15]);
+                }
+                block.push(value.len() as u8); // < 127, no Huffman coding
+                block.extend_from_slice(value);
+            }
+            let mut m = b"PRI * HTTP/2.0\r\n\r\nSM\r\n\r\n".to_vec();
+            m.extend(frame(4, 0, 0, &[]));
+            // :method POST, :scheme http, :path /upload, :authority sim
+            let mut block = vec![0x83u8, 0x86];
+            lit(&mut block, 4, b"/upload");
+            lit(&mut block, 1, b"sim");
+            match script.payload {
+                Payload::Json => lit(&mut block, 31, b"application/json"),
+                Payload::Form => lit(&mut block, 31, b"application/x-www-form-urlencoded"),
+                Payload::Random => {}
+            }
+            if let Some(v) = cl_header(script, data.len()) {
+                let digits = !v.is_empty() && v.bytes().all(|b| b.is_ascii_digit());
+                if !digits || v.parse::<u64>().map(|n| n != data.len() as u64).unwrap_or(true) {
+                    valid = false;
+                }
+                let v = &v.as_bytes()[..v.len().min(100)];
+                lit(&mut block, 28, v);
+            }
+            // END_HEADERS, and END_STREAM when there is no body at all
+            m.extend(frame(1, if data.is_empty() { 0x5 } else { 0x4 }, 1, &block));
+            let mut pos = 0;
+            let mut cuts: Vec<usize> = Vec::new();
+            for k in sizes.iter() {
+                let k = (*k).min(data.len() - pos).min(16_384);
+                if k == 0 {
+                    continue;
+                }
+                pos += k;
+                cuts.push(pos);
+            }
+            while pos < data.len() {
+                pos += (data.len() - pos).min(16_384);
+                cuts.push(pos);
+            }
+            let mut from = 0;
+            for (i, c) in cuts.iter().enumerate() {
+                m.extend(frame(0, if i + 1 == cuts.len() { 0x1 } else { 0 }, 1, &data[from..*c]));
+                from = *c;
+            }
+            (m, data.to_vec(), valid)
+        }
         Framing::Chunked(sizes) => {
             if let Some(v) = cl_header(script, data.len()) {
                 // both headers: Transfer-Encoding wins; still a well-formed message only if the
@@ -733,6 +798,20 @@ fn wire_message(script: &Script, data: &[u8]) -> (Vec<u8>, Vec<u8>, bool) {
     }
 }
 
+/// Like the executor of pavex's workers: connection-level tasks of the HTTP/2 server go to the
+/// `LocalSet` of the simulated server thread.
+#[derive(Clone, Copy)]
+struct LocalExec;
+
+impl<F> hyper::rt::Executor<F> for LocalExec
+where
+    F: std::future::Future + 'static,
+{
+    fn execute(&self, fut: F) {
+        tokio::task::spawn_local(fut);
+    }
+}
+
 async fn wire_service(req: hyper::Request<hyper::body::Incoming>) -> Result<hyper::Response<http_body_util::Full<Bytes>>, std::convert::Infallible> {
     use pavex::request::body::{BodySizeLimit, RawIncomingBody};
     let (parts, body) = req.into_parts();
@@ -767,6 +846,7 @@ fn run_wire(script: &Script, tape: &mut Tape, keep: bool) -> RunOut {
     let rt = sched::runtime();
     let frags = script.fragments.clone();
     let fault = script.fault.clone();
+    let is_h2 = matches!(script.framing, Framing::H2(_));
     let cap = script.pipe_capacity.max(1);
     let total = msg.len();
     let msg_len = msg.len();
@@ -778,8 +858,11 @@ fn run_wire(script: &Script, tape: &mut Tape, keep: bool) -> RunOut {
         let server = sched::spawn("server", true, move || {
             Box::pin(async move {
                 let io = hyper_util::rt::TokioIo::new(sv);
-                let conn = hyper::server::conn::http1::Builder::new().serve_connection(io, hyper::service::service_fn(wire_service));
-                let r = conn.await;
+                let r = if is_h2 {
+                    hyper::server::conn::http2::Builder::new(LocalExec).serve_connection(io, hyper::service::service_fn(wire_service)).await
+                } else {
+                    hyper::server::conn::http1::Builder::new().serve_connection(io, hyper::service::service_fn(wire_service)).await
+                };
                 crate::slog!("connection finished: {}", if r.is_ok() { "ok".to_string() } else { format!("{:?}", r.err().map(|e| e.to_string())) });
             })
         });
@@ -842,6 +925,10 @@ fn run_wire(script: &Script, tape: &mut Tape, keep: bool) -> RunOut {
                                 if seen.ends_with(b"\r\n\r\ndone") || seen.windows(8).any(|w| w == b"HTTP/1.1") && seen.ends_with(b"\r\n\r\n") {
                                     break;
                                 }
+                                // HTTP/2: the response body travels in a DATA frame
+                                if is_h2 && seen.windows(4).any(|w| w == b"done") {
+                                    break;
+                                }
                             }
                         }
                     }
@@ -893,6 +980,7 @@ fn run_wire(script: &Script, tape: &mut Tape, keep: bool) -> RunOut {
     let framing = match &script.framing {
         Framing::Length => "length",
         Framing::Chunked(_) => "chunked",
+        Framing::H2(_) => "h2",
     };
     let sig = format!(
         "wire {framing} cl={} body{}N complete={}",
@@ -978,6 +1066,12 @@ fn run_wire(script: &Script, tape: &mut Tape, keep: bool) -> RunOut {
     }
     if rec.seen_te {
         out.count("chunked_requests", 1);
+    }
+    if is_h2 {
+        out.count("h2_requests", 1);
+        if rec.service_called {
+            out.count("h2_requests_reaching_the_extractor", 1);
+        }
     }
     for (k, v) in &inner.counters {
         out.count(k, *v);
@@ -1100,7 +1194,7 @@ impl Sim for BodySim {
     fn meta(_p: &str) -> SimMeta {
         SimMeta {
             rule: "Each run draws limit N (0, 1, small, 64 KiB, the 2 MB default, near u64::MAX), a body length around N (N-1, N, N+1, 0, 2N, uniform), a Content-Length header (absent, truthful, too small, too large, = N, N+1, extreme, garbage) and a transport script. Mode B: scripted http_body::Body frames (sizes, empty frames, trailers, Pending, error frame, lying size_hint) into the real _extract_with_limit. Mode A: raw HTTP/1.1 bytes written in seeded fragments with seeded delays over a simulated socket of seeded capacity into a real hyper connection whose service calls the public BufferedBody::extract; client and server are two simulated threads interleaved by the choice tape; faults: half-close, stall, reset mid-body. Non-trivial: more than one frame/fragment or a non-truthful Content-Length. Distinct: distinct hash of (frame/fragment script, header, limit, length, interleaving).".into(),
-            real: vec!["pavex BufferedBody::extract / _extract_with_limit".into(), "pavex JsonBody::extract, UrlEncodedBody::extract".into(), "http_body_util::Limited + collect".into(), "hyper 1.x HTTP/1 server connection, request parsing, chunked decoding (mode A)".into(), "tokio current-thread runtime with paused clock (mode A)".into()],
+            real: vec!["pavex BufferedBody::extract / _extract_with_limit".into(), "pavex JsonBody::extract, UrlEncodedBody::extract".into(), "http_body_util::Limited + collect".into(), "hyper 1.x HTTP/1 server connection, request parsing, chunked decoding (mode A)".into(), "hyper 1.x + h2 HTTP/2 server connection, HPACK decoding, DATA frames, content-length validation (mode A, a third of the wire runs whose body fits the default window)".into(), "tokio current-thread runtime with paused clock (mode A)".into()],
             stub: vec!["transport: scripted Body (mode B), in-memory simulated socket + raw client (mode A)".into(), "thread scheduling: seeded choice tape".into()],
             assumptions: vec!["HTTP/2 framing is not exercised (mode A speaks HTTP/1.1 only)".into(), "the body as delivered is defined by HTTP framing: with a too-small Content-Length the message body is its first Content-Length bytes".into()],
             fault_counters: vec!["fault_error_frame".into(), "fault_lying_size_hint".into(), "fault_cl_garbage".into(), "fault_cl_lying".into(), "fault_half_close".into(), "fault_stall".into(), "fault_reset".into()],
@@ -1148,11 +1242,21 @@ impl Sim for BodySim {
         } else {
             (Framing::Length, vec![], 0, WireFault::None)
         };
+        let body_seed = rng.next_u64();
+        let dual = !wire && rng.chance(1, 4);
+        // last draws (everything above is the same function of the seed as before this arm existed):
+        // a third of the wire runs whose body fits the default flow-control window speak HTTP/2
+        let framing = if wire && body_len <= 60_000 && rng.chance(1, 3) {
+            let k = rng.usize(0, 6);
+            Framing::H2((0..k).map(|_| rng.usize(1, body_len.max(1))).collect())
+        } else {
+            framing
+        };
         Script {
             wire,
             limit,
             body_len,
-            body_seed: rng.next_u64(),
+            body_seed,
             payload,
             cl,
             frames,
@@ -1162,7 +1266,7 @@ impl Sim for BodySim {
             pipe_capacity,
             fault,
             limit_disabled: false,
-            dual: !wire && rng.chance(1, 4),
+            dual,
         }
     }
 
@@ -1213,10 +1317,19 @@ impl Sim for BodySim {
                 t.pipe_capacity = 65_536;
                 c.push(t);
             }
-            if let Framing::Chunked(_) = s.framing {
+            if !matches!(s.framing, Framing::Length) {
                 let mut t = s.clone();
                 t.framing = Framing::Length;
                 c.push(t);
+            }
+            if let Framing::H2(sizes) = &s.framing {
+                for i in 0..sizes.len() {
+                    let mut t = s.clone();
+                    let mut z = sizes.clone();
+                    z.remove(i);
+                    t.framing = Framing::H2(z);
+                    c.push(t);
+                }
             }
         }
         if s.payload != Payload::Random {
